@@ -415,7 +415,7 @@ CHECKS['C20'] = dict(
     rule='policy families: the SAME generated program (C01/C02/C10 list programs incl. copy/move/swap and counter wrap; C04/C10 dispatcher programs; C05/C10 queue programs) is run under every member of a family '
          'that differs only in policies - lists: {std::mutex+std::function, SingleThreading, SpinLock, custom callback+Single, custom callback+SpinLock}; dispatchers: {default unordered_map, SingleThreading, '
          'std::map, user map(std::greater)+Single, IncludeEvent+SpinLock, custom callback}; queues: {default, Single, SpinLock, std::map+custom callback, IncludeEvent+Single} - each member checked against the model '
-         'in-process and the observable traces (operations, results, calls with arguments) compared by hash; build matrix: g++ 12 / clang++ 14 x -std=c++11/14/17/20 x -O0/-O2 (4 builds quick, 16 thorough), same '
+         'in-process and the observable traces (operations, results, calls with arguments) compared by hash; a second dispatcher family has a by-value std::string key in the prototype (the shape on which unspecified argument evaluation order shows); build matrix: g++ 12 / clang++ 14 x -std=c++11/14/17/20 x -O0/-O2 (4 builds quick, 16 thorough), same '
          'seeds, per-driver trace accumulators compared across builds; pool storage pre-filled with 0x00/0xFF/0xA5/0x5C/random before construction, plus a memcheck run with the storage left undefined; '
          'evaluations = programs x family members x builds; distinct = trace hash',
     jobs=_c20_jobs(),
